@@ -1,7 +1,7 @@
 (** C20 - lemmas: schedule independence of the parallel loops, order independence of the
     hash-map consumers, obligations over the translated RNG / parallel-construct tables. *)
 From Coq Require Import List NArith Bool Permutation Sorted Reals Lra Lia Floats.
-From LinfaVerif Require Import Common.Num Common.NdSum Common.B32 C09.Model C09.Proofs C20.Model gen.C20_seeds.
+From LinfaVerif Require Import Common.Num Common.NdSum Common.B32 C09.Model C09.Proofs C20.Model C20.F32Add gen.C20_seeds.
 Import ListNotations.
 
 (** * 0. list toolkit *)
@@ -511,6 +511,12 @@ Lemma seq_sum_small_ints (ns : list N) :
 Proof. intros H. unfold seq_sum. rewrite <- of_N_0. apply seq_sum_small_ints_acc; auto. Qed.
 End SmallInt.
 
+(** binary32 (Rust f32) satisfies both hypotheses outright with bound 2^24 (C20/F32Add.v, through
+    Flocq's Bplus_correct): unit-weight class frequencies are summed exactly, in any order *)
+Lemma b32_seq_sum_small_ints (ns : list N) : (fold_left N.add ns 0 <= 16777216)%N ->
+  seq_sum B32_ops (map (of_N B32_ops) ns) = of_N B32_ops (fold_left N.add ns 0%N).
+Proof. exact (seq_sum_small_ints B32_ops 16777216%N b32_add_small_ints b32_of_N_0 ns). Qed.
+
 Lemma gini_perm_R (l1 l2 : list R) : Permutation l1 l2 -> gini R_ops l1 = gini R_ops l2.
 Proof.
   intros P. unfold gini, seq_sum. simpl.
@@ -642,6 +648,17 @@ Example ex_b32_small_int_add :
   sf_eqb (add B32.B32_ops (of_N B32.B32_ops 16777215) (of_N B32.B32_ops 1)) (of_N B32.B32_ops 16777216) = true /\
   sf_eqb (add B32.B32_ops (of_N B32.B32_ops 16777216) (of_N B32.B32_ops 1)) (of_N B32.B32_ops 16777216) = true.
 Proof. vm_compute. auto. Qed.
+
+(* beyond 2^24 the binary32 sum of integers depends on the order: (2^24 + 1) + 1 = 2^24, (1 + 1) + 2^24 = 2^24 + 2 *)
+Example ex_b32_sum_beyond_bound :
+  seq_sum B32_ops (map (of_N B32_ops) [16777216; 1; 1]%N) <> seq_sum B32_ops (map (of_N B32_ops) [1; 1; 16777216]%N).
+Proof. vm_compute. intros H; discriminate H. Qed.
+
+(* ... and at the bound it is still exact: 16777215 + 1 and 8388608 + 8388608 *)
+Example ex_b32_sum_at_bound :
+  seq_sum B32_ops (map (of_N B32_ops) [8388608; 8388607; 1]%N) = of_N B32_ops 16777216%N /\
+  (fold_left N.add [8388608; 8388607; 1] 0 <= 16777216)%N.
+Proof. split; [vm_compute; reflexivity | vm_compute; discriminate]. Qed.
 
 Example ex_unique_max : forall e, In e [(1%N, 2%R); (5%N, 3%R)] -> e <> (5%N, 3%R) -> (snd e < snd (5%N, 3%R))%R.
 Proof. intros e [H|[H|[]]] Hne; subst; simpl; [lra | congruence]. Qed.
